@@ -17,8 +17,9 @@ PROPERTY_ID = "C10"
 LEVEL = "exploration"
 RULE = (
     "generated histories over {fit, update(update_params), predict, update_predict_single, "
-    "update_predict(cv)} with consecutive or overlapping (possibly revised) batches, for plain "
-    "and composite forecasters; invariants after every step: cutoff == model cutoff; "
+    "update_predict(cv), re-fit} with consecutive, overlapping (possibly revised) or purely "
+    "revising batches, for plain and composite forecasters incl. pipelines of element-wise "
+    "transformers (value-checked through the chain) and a Detrender sub-check; invariants after every step: cutoff == model cutoff; "
     "refit-on-update forecasters forecast like a fresh forecaster fitted on the model's union; "
     "with update_params=False parametric forecasters keep the parameters of the last fit and "
     "forecast from the new cutoff; update_predict == the corresponding single updates on a deep "
@@ -365,7 +366,7 @@ def specs():
                   pools.stateless_chains(1, 3), st.one_of(pools.naive_specs(), pools.trend_specs())))
     stack = st.builds(lambda ms: {"kind": "stack", "members": ms, "reg": "linear"},
                       st.lists(st.one_of(pools.naive_specs(), pools.trend_specs()), min_size=1, max_size=2))
-    return st.one_of(plain, plain, ens, mux, pipe, stack)
+    return st.one_of(plain, plain, ens, ens, mux, pipe, pipe, stack)
 
 
 @st.composite
@@ -380,7 +381,7 @@ def cases(draw):
             k = draw(st.sampled_from([1, 2, 3, 4, 1, 2, 0]))
             # k == 0: a pure revision of the latest observations (the batch ends AT the cutoff)
             ops.append({"op": t, "k": k, "overlap": draw(st.sampled_from([0, 0, 1, 2, 3])) if k else draw(st.integers(1, 3)),
-                        "revise": draw(st.booleans()) if k else True, "update_params": draw(st.sampled_from([True, True, False]))})
+                        "revise": draw(st.booleans()) if k else True, "update_params": draw(st.sampled_from([True, True, False, False]))})
         elif t == "predict":
             ops.append({"op": "predict"})
         elif t == "refit":
@@ -403,7 +404,7 @@ def cases(draw):
 
 
 def subchecks():
-    return [SubCheck("histories", oracle, cases(), quick=1800, thorough=20000, shards_quick=12, shards_thorough=16),
+    return [SubCheck("histories", oracle, cases(), quick=3000, thorough=20000, shards_quick=12, shards_thorough=16),
             SubCheck("detrender_histories", oracle_detrender, detrender_cases(), quick=400, thorough=6000, shards_quick=2, shards_thorough=4)]
 
 
